@@ -190,8 +190,18 @@ func (s *gsched) handle(ev h.IOEv) {
 	if r == nil {
 		return // the harness's own file accesses (observations, image copies)
 	}
+	if ev.Kind == "point" && r.gateIO {
+		// a client call: the point between its log append and its index update is the gate of the behaviour's "ack"
+		if ev.Path == "put.appended" || ev.Path == "delete.appended" {
+			s.park(r, ev.Path)
+		}
+		return
+	}
 	if ev.Kind == "point" {
-		if r.gatePoints && ev.Path != "merge.rewrite" && ev.Path != "merge.done" && ev.Path != "open.adopted" {
+		// a role is parked *in front of* the file-system operation that the next step of the behaviour stands for: the
+		// points that precede no operation (lock taken, rotation done) are passed
+		if r.gatePoints && ev.Path != "merge.rewrite" && ev.Path != "merge.done" && ev.Path != "open.adopted" &&
+			ev.Path != "open.locked" && ev.Path != "merge.started" {
 			s.park(r, ev.Path)
 		}
 		return
@@ -855,6 +865,67 @@ func runScript(en *Env, sc *gscript, idx int, stats map[string]int) {
 			g.openStart(true)
 		}
 		g.openFinish()
+	}
+	g.epilogue()
+}
+
+// epilogue: whatever state the behaviour ended in, the run is brought to a quiescent open database, which is then
+// written to, restarted and read (all recorded and judged like the rest): a state that looks right at the end of
+// the behaviour must also survive further use.
+func (g *genRun) epilogue() {
+	if g.dead {
+		return
+	}
+	g.finishClient()
+	if r := g.merge; r != nil {
+		g.s.setFree(r)
+		if g.s.settle(r, 10*time.Second) != gDone {
+			return
+		}
+		g.merge = nil
+	}
+	if g.opener != nil {
+		g.openFinish()
+	}
+	if g.dead {
+		return
+	}
+	if g.bopen && g.batch != nil {
+		b := g.batch
+		g.startCall("Commit", 0, 0, 0, 0, true, func() (int, error) { return 0, b.Commit() })
+		g.finishClient()
+		g.bopen = false
+	}
+	if g.db == nil {
+		g.openStart(true)
+		g.openFinish()
+	}
+	if g.dead || g.db == nil {
+		return
+	}
+	g.stats["epilogues"]++
+	g.view()
+	vid, val := g.val(1)
+	key := g.key(1)
+	g.startCall("Put", 1, vid, len(val), 0, true, func() (int, error) { return 0, g.db.Put(key, val) })
+	g.finishClient()
+	g.view()
+	for i := 0; i < 2 && !g.dead; i++ {
+		db := g.db
+		g.startCall("Close", 0, 0, 0, 0, true, func() (int, error) { return 0, db.Close() })
+		g.finishClient()
+		g.db = nil
+		g.openStart(true)
+		g.openFinish()
+		if g.dead || g.db == nil {
+			return
+		}
+		if i == 0 {
+			k2 := g.key(g.nkeys)
+			g.startCall("Delete", g.nkeys, 0, 0, 0, true, func() (int, error) { return 0, g.db.Delete(k2) })
+			g.finishClient()
+			g.view()
+		}
 	}
 }
 
